@@ -342,6 +342,25 @@ func ccGraph(r *gen.Rand, e *emitter) (map[string]string, []string) {
 	files["leaf.js"] = "export let lx = 1;\nconsole.log(\"leaf\");\n"
 	entries := []string{}
 	entPath := func(j int) string { return fmt.Sprintf("e%d.js", j) }
+	// Family "wrapped re-exporter": an ES module that an entry loads with require() (so it is wrapped with __esm)
+	// and that only re-exports, by name or with `export *`, bindings of a shared module which ANOTHER entry point
+	// reaches directly (so the defining module sits in another chunk). Its generated namespace-export part lists
+	// the resolved targets of the re-exports directly in SymbolUses, without an ImportsToBind entry: the one place
+	// where the `Wrap == WrapCJS && ref != WrapperRef` test of computeCrossChunkDependencies decides about a symbol
+	// of another chunk. For contrast: a wrapped ES module that imports the binding normally and uses it.
+	wrapFam := make([][][2]int, nEnt) // per entry: (shared module, kind)
+	direct := make([][]int, nEnt)      // per entry: shared modules it must import directly
+	for j := 0; j < nEnt; j++ {
+		if r.Chance(1, 3) {
+			for k := 0; k < 1+r.Intn(2); k++ {
+				i := r.Intn(nSh)
+				wrapFam[j] = append(wrapFam[j], [2]int{i, r.Intn(4)})
+				if o := (j + 1 + r.Intn(nEnt-1)) % nEnt; r.Chance(4, 5) {
+					direct[o] = append(direct[o], i)
+				}
+			}
+		}
+	}
 	for j := 0; j < nEnt; j++ {
 		if r.Chance(1, 8) {
 			// CommonJS entry point
@@ -493,6 +512,30 @@ func ccGraph(r *gen.Rand, e *emitter) (map[string]string, []string) {
 		fmt.Fprintf(&sb, "export const %s = %d;\nexport function %s() { return %d; }\n", id("name"), j, id("fn"), j)
 		if r.Chance(1, 3) {
 			sb.WriteString("export default \"d\";\n")
+		}
+		for n, w := range wrapFam[j] {
+			i := w[0]
+			name := fmt.Sprintf("w%d_%d.js", j, n)
+			switch w[1] {
+			case 0:
+				files[name] = fmt.Sprintf("export { x_%d as wx, bump_%d as wb } from \"./s%d.js\";\n", i, i, i)
+				e.stat("gen:wrapped-esm-reexports-by-name")
+			case 1:
+				files[name] = fmt.Sprintf("export * from \"./s%d.js\";\n", i)
+				e.stat("gen:wrapped-esm-reexports-star")
+			case 2:
+				files[name] = fmt.Sprintf("export * from \"./s%d.js\";\nexport { y_%d as wy } from \"./s%d.js\";\nexport const wown = %d;\n", i, i, i, n)
+				e.stat("gen:wrapped-esm-reexports-star+name+own")
+			default:
+				files[name] = fmt.Sprintf("import { x_%d as wi, bump_%d as wbump } from \"./s%d.js\";\nexport const wv = [wi, wbump()];\nconsole.log(\"%s\");\n", i, i, i, name)
+				e.stat("gen:wrapped-esm-imports-normally")
+			}
+			fmt.Fprintf(&body, "console.log(require(\"./%s\"));\n", name)
+		}
+		for _, i := range direct[j] {
+			v := id("dx")
+			fmt.Fprintf(&sb, "import { x_%d as %s } from \"./s%d.js\";\n", i, v, i)
+			fmt.Fprintf(&body, "console.log(typeof %s);\n", v)
 		}
 		if r.Chance(1, 8) {
 			files["st.css"] = "@import \"./st2.css\";\n.a { color: red }\n"
@@ -717,6 +760,13 @@ func ccStats(e *emitter, d linker.VerifCCDump) {
 							e.stat("use:inside-cjs-wrapper-skipped")
 						} else {
 							e.stat("use:plain")
+							if f.Wrap == 2 && u != f.WrapperRef {
+								e.stat("use:unbound-to-import-inside-esm-wrapper")
+								if syms[u].ChunkIndex >= 0 && syms[u].ChunkIndex != ci {
+									// only the `== WrapCJS` of the wrapper test keeps this symbol of ANOTHER chunk
+									e.stat("use:esm-wrapper-direct-use-of-other-chunk-symbol")
+								}
+							}
 						}
 						if bound || !(f.Wrap == 1 && u != f.WrapperRef) {
 							if syms[t].HasNs {
